@@ -51,7 +51,7 @@ func checkC07(c *Ctx, r *Report) {
 				return ok && strings.HasSuffix(calleeOfCall(fi.Pkg.TypesInfo, cl), ".Enums")
 			}
 		}, "symGraph.Enums()",
-		func(fi *FuncInfo) func(ast.Node) bool { return w.appendTo(fi, identNamed("reducedEnums")) }, "append(reducedEnums)", nil, true,
+		func(fi *FuncInfo) func(ast.Node) bool { return w.appendTo(fi, w.resultSlice(fi)) }, "append(reducedEnums)", nil, true,
 		"every enum of the graph is reduced and kept")
 	modelsT := w.lookupType("definitions", "Models")
 	ruleFieldFlow(c, r, ffSpec{Clause: "C07.b", Fn: gmod, Owner: modelsT, Field: "Structs", MustCalls: []string{"graphs/symboldg.ComposeStructs"}, AllowedFields: []string{"*"}, AllowedCalls: []string{"*"}, Desc: "Models.Structs = ComposeStructs(graph)"})
@@ -59,14 +59,16 @@ func checkC07(c *Ctx, r *Report) {
 	ruleFieldFlow(c, r, ffSpec{Clause: "C07.b", Fn: gmod, Owner: modelsT, Field: "Enums", MustCalls: []string{"(core/metadata.EnumMeta).Reduce"}, AllowedFields: []string{"*"}, AllowedCalls: []string{"*"}, Desc: "Models.Enums = reduced graph enums"})
 	const rsl = "graphs/symboldg.reduceStructLists"
 	ruleEach(c, r, "C07.b", rsl,
-		func(fi *FuncInfo) func(ast.Expr) bool { return w.rangeOverField(fi, "graphs/symboldg.RawStructModelsList.Structs") }, "structList.Structs",
-		func(fi *FuncInfo) func(ast.Node) bool { return w.appendTo(fi, identNamed("reducedList")) }, "append(reducedList)", nil, true,
+		func(fi *FuncInfo) func(ast.Expr) bool {
+			return w.rangeOverField(fi, "graphs/symboldg.RawStructModelsList.Structs")
+		}, "structList.Structs",
+		func(fi *FuncInfo) func(ast.Node) bool { return w.appendTo(fi, w.resultSlice(fi)) }, "append(reducedList)", nil, true,
 		"every plain struct is reduced and kept")
 	ruleEach(c, r, "C07.b", rsl,
 		func(fi *FuncInfo) func(ast.Expr) bool {
 			return w.rangeOverField(fi, "graphs/symboldg.RawStructModelsList.GenericStructs")
 		}, "structList.GenericStructs",
-		func(fi *FuncInfo) func(ast.Node) bool { return w.appendTo(fi, identNamed("reducedList")) }, "append(reducedList)", nil, true,
+		func(fi *FuncInfo) func(ast.Node) bool { return w.appendTo(fi, w.resultSlice(fi)) }, "append(reducedList)", nil, true,
 		"every generic struct contributes its instantiations")
 	const csl = "graphs/symboldg.collectStructModelList"
 	ruleEach(c, r, "C07.b", csl,
@@ -93,7 +95,7 @@ func checkC07(c *Ctx, r *Report) {
 				return ok && calleeOfCall(fi.Pkg.TypesInfo, cl) == "(*go/types.Scope).Names"
 			}
 		}, "scope.Names()",
-		func(fi *FuncInfo) func(ast.Node) bool { return w.appendTo(fi, identNamed("out")) }, "append(out)",
+		func(fi *FuncInfo) func(ast.Node) bool { return w.appendTo(fi, w.resultSlice(fi)) }, "append(out)",
 		func(fi *FuncInfo) []skipSpec {
 			return []skipSpec{
 				{Cond: func(e ast.Expr) bool { return exprString(e) == "!ok" || exprString(e) == "ok" }, Pol: true, Desc: "object is not a constant"},
@@ -124,7 +126,7 @@ func checkC07(c *Ctx, r *Report) {
 		},
 		func(a *sliceAtoms, cnd ssa.Value) bool {
 			for p := range a.Params {
-				if p.Name() == "hasAnyErrorTypes" {
+				if paramTyped(p, "bool") {
 					return true
 				}
 			}
@@ -559,7 +561,7 @@ func checkEnumAliasShape(c *Ctx, r *Report, ver, pkg, enumFn string) {
 	ruleFieldFlow(c, r, ffSpec{Clause: "C07.c", Fn: pkg + "." + enumFn, Owner: schemaT, Field: "Enum", Must: []string{"definitions.EnumMetadata.Values"}, AllowedCalls: []string{"*"}, Desc: ver + ": enum values = the declared constants"})
 	ruleEach(c, r, "C07.c", pkg+"."+enumFn,
 		func(fi *FuncInfo) func(ast.Expr) bool { return w.rangeOverField(fi, "definitions.EnumMetadata.Values") }, "model.Values",
-		func(fi *FuncInfo) func(ast.Node) bool { return w.appendTo(fi, identNamed("enumValues")) }, "append(enumValues)", nil, false,
+		func(fi *FuncInfo) func(ast.Node) bool { return w.appendTo(fi, w.resultSlice(fi)) }, "append(enumValues)", nil, false,
 		ver+": every declared constant is listed")
 	ruleFieldFlow(c, r, ffSpec{Clause: "C07.c", Fn: pkg + ".generateAliasSpec", Owner: schemaT, Field: "Type", Must: []string{"definitions.NakedAliasMetadata.Type"}, MustCalls: []string{"generator/swagen/swagtool.ToOpenApiType"}, Desc: ver + ": alias schema type = mapped underlying primitive"})
 }
